@@ -6,7 +6,7 @@ CONSTANTS
   MaxSub = 1
   NPat = 3
   OpSet <- Ops_all
-  TrimRef <- Ref_01
+  TrimRef <- Ref_012
   Mutant = "none"
 INVARIANT TypeOK
 INVARIANT Disjoint
